@@ -203,7 +203,11 @@ func judgeC18(c *Ctx, sc *Scenario) *Violation {
 	if names != "none" {
 		want["Matching commits to trees"] = ex.Commits
 	}
-	for k, n := range want {
+	for _, k := range phaseOrder { // fixed order: the class reported must not depend on map order
+		n, wanted := want[k]
+		if !wanted {
+			continue
+		}
 		g, ok := finals[k]
 		if !ok {
 			return &Violation{"C18/final-line-missing", k}
